@@ -180,6 +180,25 @@ def judge_user(case, rep, S):
                 ua = {a: {"D": "E", "E": "D", "K": "R", "R": "K"}.get(a, a) for a in M.AA}
             rep.cnt("user_bijections")
             kind = "total"
+        if kind == "total" and rng.random() < 0.15:
+            # a dict subclass that answers some residues through __missing__ (without storing them): whatever the library makes of
+            # it, accepting it means applying it residue by residue with the same look-ups
+            class Fallback(dict):
+                def __missing__(self, key):
+                    return fallback_letter
+            fallback_letter = rng.choice(images)
+            stored = {a: ua[a] for a in rng.sample(list(M.AA), rng.randint(5, 19))}
+            fb = Fallback(stored)
+            want_fb = "".join(fb[c] for c in seq)
+            rep.cnt("user_alphabets_answering_through_missing")
+            try:
+                out_fb, alpha_fb = red(obj, userAlphabet=fb)
+            except Exception:
+                rep.cnt("user_invalid_rejected")
+            else:
+                if out_fb != want_fb or any(c not in alpha_fb for c in out_fb):
+                    rep.viol("user_not_applied", "a dict subclass with __missing__ (stored %r, fallback %r) was accepted on %s but gave %s with alphabet %r; look-ups give %s" % (
+                        stored, fallback_letter, seq, out_fb, alpha_fb, want_fb), sig={"step": step, "missing_subclass": True})
         if kind == "total_with_extras":
             # entries for keys that are not amino acids (ambiguity codes, lower case) are not part of the alphabet
             for extra in rng.sample(["B", "Z", "X", "U", "a", "k", "*"], rng.randint(1, 3)):
@@ -219,7 +238,7 @@ def judge_user(case, rep, S):
             elif kind == "lower_value":
                 bad[rng.choice(list(M.AA))] = rng.choice(list(M.AA)).lower()
             elif kind == "non_aa_value":
-                bad[rng.choice(list(M.AA))] = rng.choice(["B", "X", "Z", "1", "", "AL", "*", "-"])
+                bad[rng.choice(list(M.AA))] = rng.choice(["B", "X", "Z", "1", "", "AL", "*", "-", "F\n", "\nF", "F ", " F", "F\r\n", "F\t", "f\n"])
             elif kind == "aa_onto_extra_key":
                 # the image of an amino acid must be an amino acid, also when the dictionary has an entry for that image
                 extra = rng.choice(["X", "B", "Z", "-", "k"])
